@@ -6,6 +6,7 @@ import (
 	"fmt"
 	"os"
 	"sort"
+	"strings"
 )
 
 // Violation is one finding of an engine run.
@@ -42,6 +43,23 @@ func (r *Result) count(k string) {
 	r.Distribution[k]++
 }
 
+// full tells an engine to stop early: the tree is broken in many ways. The cap is on the total, not on the first few, so that
+// violations of one property cannot crowd out the (later) ones of another; trimViolations keeps a few per attribution class.
+func (r *Result) full() bool { return len(r.Violations) >= 60 }
+
+func (r *Result) trimViolations() {
+	per := map[string]int{}
+	out := []Violation{}
+	for _, v := range r.Violations {
+		k := v.Property + "|" + strings.Join(v.Also, ",") + "|" + v.Kind
+		if per[k] < 4 {
+			out = append(out, v)
+		}
+		per[k]++
+	}
+	r.Violations = out
+}
+
 func (r *Result) countN(k string, n int) {
 	if r.Distribution == nil {
 		r.Distribution = map[string]int{}
@@ -61,6 +79,9 @@ type Opts struct {
 }
 
 var engines = map[string]func(o Opts) *Result{}
+
+// checkFor is the property whose check runs this engine ("" = stop at the first violation of anything).
+var checkFor string
 
 func main() {
 	if len(os.Args) < 2 {
@@ -83,6 +104,7 @@ func main() {
 	fs.StringVar(&o.Out, "out", "", "result JSON path")
 	fs.IntVar(&o.Only, "only", -1, "run only the case with this index (replay)")
 	fs.StringVar(&o.Replay, "replay", "", "replay file")
+	fs.StringVar(&checkFor, "for", "", "property under check: monitor violations that do not speak about it do not end a scenario")
 	_ = fs.Parse(os.Args[2:])
 	f, ok := engines[eng]
 	if !ok {
@@ -95,6 +117,7 @@ func main() {
 	if res.Violations == nil {
 		res.Violations = []Violation{}
 	}
+	res.trimViolations()
 	buf, _ := json.MarshalIndent(res, "", " ")
 	if o.Out != "" {
 		if err := os.WriteFile(o.Out, buf, 0o644); err != nil {
